@@ -141,9 +141,14 @@ impl<X> Scene for ProgScene<X> {
                 if self.variant.recreate && spawn.strat == crate::scenes::Strat::Default {
                     spawn.strat = crate::scenes::Strat::Recreate;
                 }
-                let o = crate::scenes::spawn_probe_ordered(0, spawn, self.variant.builder_order);
-                let b = o.to_addr();
-                (Some(o), b)
+                // nobody in the scene asks for the owner: use the builder's detached terminal
+                if self.clients.iter().all(|cs| !cs.init.contains(&HInit::Own)) {
+                    (None, crate::scenes::spawn_probe_detached(0, spawn, self.variant.builder_order))
+                } else {
+                    let o = crate::scenes::spawn_probe_ordered(0, spawn, self.variant.builder_order);
+                    let b = o.to_addr();
+                    (Some(o), b)
+                }
             }
             Attach::Stream { via, prefill, close } => match spawn_probe_on_stream(0, *via, prefill, *close, self.spawn.timeout) {
                 OwningOrAddr::Own(o) => {
